@@ -121,7 +121,7 @@ func newAllowList(k string, raw any, handleKey func(key string, value any) (bool
 			return nil, fmt.Errorf("config `%s` has invalid CIDR: %s. %w", k, rawCIDR, err)
 		}
 
-		ipNet = netip.PrefixFrom(ipNet.Addr().Unmap(), ipNet.Bits())
+		ipNet = unmapPrefix(ipNet)
 
 		tree.Insert(ipNet, value)
 
@@ -184,7 +184,8 @@ func getAllowListInterfaces(k string, v any) ([]AllowListNameRule, error) {
 			return nil, fmt.Errorf("config `%s.interfaces` has invalid value (type %T): %v", k, rawAllow, rawAllow)
 		}
 
-		nameRE, err := regexp.Compile("^" + name + "$")
+		// Group the expression so an alternation is anchored as a whole, the regexp must match the entire name
+		nameRE, err := regexp.Compile("^(?:" + name + ")$")
 		if err != nil {
 			return nil, fmt.Errorf("config `%s.interfaces` has invalid key: %s: %v", k, name, err)
 		}
@@ -230,7 +231,7 @@ func getRemoteAllowRanges(c *config.C, k string) (*bart.Table[*AllowList], error
 			return nil, fmt.Errorf("config `%s` has invalid CIDR: %s. %w", k, rawCIDR, err)
 		}
 
-		remoteAllowRanges.Insert(netip.PrefixFrom(ipNet.Addr().Unmap(), ipNet.Bits()), allowList)
+		remoteAllowRanges.Insert(unmapPrefix(ipNet), allowList)
 	}
 
 	return remoteAllowRanges, nil
@@ -241,7 +242,8 @@ func (al *AllowList) Allow(addr netip.Addr) bool {
 		return true
 	}
 
-	result, _ := al.cidrTree.Lookup(addr)
+	// IPv4-mapped addresses are IPv4 addresses, the tree holds their rules in IPv4 form
+	result, _ := al.cidrTree.Lookup(addr.Unmap())
 	return result
 }
 
@@ -303,4 +305,14 @@ func (al *RemoteAllowList) getInsideAllowList(vpnAddr netip.Addr) *AllowList {
 		}
 	}
 	return nil
+}
+
+// unmapPrefix turns a prefix written in IPv4-mapped IPv6 form (::ffff:a.b.c.d/96+n) into the IPv4 prefix a.b.c.d/n.
+// The prefix length has to move with the address or the result is not a valid prefix. Anything shorter than /96
+// covers more than the mapped IPv4 space and stays an IPv6 prefix.
+func unmapPrefix(p netip.Prefix) netip.Prefix {
+	if p.Addr().Is4In6() && p.Bits() >= 96 {
+		return netip.PrefixFrom(p.Addr().Unmap(), p.Bits()-96)
+	}
+	return p
 }
